@@ -40,7 +40,10 @@ def one(h: Harness, spec, b, g, mind, kind, d, draws):
                    f"max depth {d} < grammar minimum {mind} gave {sx(res)[:120]}", replay)
         return None
     if res[0] != "ok":
-        h.fail(site, "feasible-limit-fails", f"max depth {d} >= grammar minimum {mind} but creation failed with {res[1]}", replay)
+        # grammars whose dependent refinements can raise SynthesisException have their own (open) finding
+        backtracking = "depVarFrom" in sx(line_spec)
+        h.fail(site, "assertion-after-synthesis-backtracking" if backtracking else "feasible-limit-fails",
+               f"max depth {d} >= grammar minimum {mind} but creation failed with {res[1]}", replay)
         return None
     h.holds(site, "depth-exceeds-limit", ["prop_depth", d, res[1]], f"program deeper than {d}: {sx(res[1])[:200]}", replay)
     if synth.depth_of(v, b) > d:
@@ -75,8 +78,28 @@ def variation(h: Harness, spec, b, g, kind, d, v, rng):
                 pool.append(x)
 
 
+RETRY_WITNESS = gram.Spec([
+    gram.ClassSpec("A0", True, None),
+    gram.ClassSpec("P1", False, 0, [("vars", ("ann", ("list", ("ann", "str", ("varRange", ["x", "y"]))), ("listSize", 0, 1))),
+                                    ("x", ("ann", "str", ("depVarFrom", "vars")))]),
+    gram.ClassSpec("P2", False, 0, [("a", ("cls", 1))]),
+], 0, [1, 2])
+
+
+def retry_witness(h: Harness):
+    """Open finding: after a production raised SynthesisException and was dropped, no remaining
+    production may fit the depth budget and the decider asserts midway."""
+    b = gram.build(RETRY_WITNESS)
+    g = b.extract()
+    mind = g.get_min_tree_depth()
+    for draws in ([0, 0], [0, 0, 0, 0], [1, 0, 0, 0]):
+        for kind in ("grow", "full", "pigrow"):
+            one(h, RETRY_WITNESS, b, g, mind, kind, mind, draws + [0] * 16)
+
+
 def run(h: Harness):
     rng = h.rng
+    retry_witness(h)
     ngr = h.n(70, 1200)
     for gi in range(ngr):
         spec = gram.productive_spec(rng, max_classes=rng.choice([3, 4, 5, 7]), opts=OPTS)
